@@ -110,7 +110,6 @@ pub enum St {
 #[derive(Clone, Debug)]
 pub struct Rec {
     pub spec: OrderSpec,
-    pub tag: u64,
     pub status: St,
     pub id: Option<u64>,
     /// server clock (date) when the order was submitted
@@ -121,10 +120,17 @@ pub struct Rec {
     pub waited_gap_ticks: u32,
 }
 
+impl Rec {
+    pub fn new(spec: &OrderSpec, submit_clock: Option<i64>) -> Self {
+        Rec { spec: spec.clone(), status: St::Buffered, id: None, submit_clock, seen_false: false, seen_true: false, waited_gap_ticks: 0 }
+    }
+}
+
+/// Orders are identified by the id the exchange shows on admission; quantities need not be unique
+/// (equal orders are interchangeable, and a batch is matched to what was submitted field by field).
 #[derive(Default)]
 pub struct ExTracker {
     pub recs: Vec<Rec>,
-    pub by_tag: BTreeMap<u64, usize>,
     pub by_id: BTreeMap<u64, usize>,
     pub buffered: Vec<usize>,
     pub max_id: Option<u64>,
@@ -134,11 +140,7 @@ pub struct ExTracker {
 }
 
 fn order_eq_fields(a: &Order, b: &Order) -> bool {
-    a.order_id == b.order_id
-        && a.order_type == b.order_type
-        && a.symbol == b.symbol
-        && a.shares.to_bits() == b.shares.to_bits()
-        && a.price.map(f64::to_bits) == b.price.map(f64::to_bits)
+    a.order_id == b.order_id && order_eq_body(a, b)
 }
 
 fn order_eq_body(a: &Order, b: &Order) -> bool {
@@ -168,6 +170,18 @@ fn trade_key(t: &Trade) -> TradeKey {
     (t.quantity.to_bits(), t.symbol.clone(), t.value.to_bits(), t.date, typ_num(&t.typ))
 }
 
+/// what a fill and the order it belongs to have in common whatever the price: (symbol, quantity, side)
+type BodyKey = (String, u64, u8);
+
+fn body_key_order(o: &Order) -> BodyKey {
+    (o.symbol.clone(), o.shares.to_bits(), if Typ::from_sut(o.order_type).is_buy() { 0 } else { 1 })
+}
+
+type OrderKey = (u8, String, u64, u64);
+fn order_key(o: &Order) -> OrderKey {
+    (Typ::from_sut(o.order_type) as u8, o.symbol.clone(), o.shares.to_bits(), o.price.map_or(u64::MAX, f64::to_bits))
+}
+
 impl ExTracker {
     pub fn new(json: bool) -> Self {
         ExTracker { json, ..Default::default() }
@@ -192,35 +206,25 @@ impl ExTracker {
             }
     }
 
-    /// insert_order: the order goes to the buffer only.
-    pub fn on_insert(
-        &mut self,
-        ctx: &mut Ctx,
-        spec: &OrderSpec,
-        pre: &VerifSnapshot,
-        post: &VerifSnapshot,
-        submit_clock: Option<i64>,
-    ) {
-        let tag = spec.tag();
-        let idx = self.recs.len();
-        self.recs.push(Rec {
-            spec: spec.clone(),
-            tag,
-            status: St::Buffered,
-            id: None,
-            submit_clock,
-            seen_false: false,
-            seen_true: false,
-            waited_gap_ticks: 0,
-        });
-        self.by_tag.insert(tag, idx);
-        self.buffered.push(idx);
+    fn body_key_trade(&self, t: &Trade) -> BodyKey {
+        (t.symbol.clone(), t.quantity.to_bits(), typ_num(&t.typ))
+    }
 
+    /// Register a submitted order without looking at snapshots (big bursts).
+    pub fn note_insert(&mut self, spec: &OrderSpec, submit_clock: Option<i64>) -> usize {
+        let idx = self.recs.len();
+        self.recs.push(Rec::new(spec, submit_clock));
+        self.buffered.push(idx);
+        idx
+    }
+
+    /// insert_order: the order goes to the buffer only.
+    pub fn on_insert(&mut self, ctx: &mut Ctx, spec: &OrderSpec, pre: &VerifSnapshot, post: &VerifSnapshot, submit_clock: Option<i64>) {
+        self.note_insert(spec, submit_clock);
         let sig = spec.typ.name();
         rule!(
             ctx, "C01", "insert-touches-book", sig,
-            pre.book.len() == post.book.len()
-                && pre.book.iter().zip(post.book.iter()).all(|(a, b)| order_eq_fields(a, b)),
+            pre.book.len() == post.book.len() && pre.book.iter().zip(post.book.iter()).all(|(a, b)| order_eq_fields(a, b)),
             "insert_order changed the resting book: {} -> {} orders", pre.book.len(), post.book.len()
         );
         let ok = post.buffer.len() == pre.buffer.len() + 1
@@ -231,11 +235,7 @@ impl ExTracker {
             "after insert the pending buffer is not old buffer + the order: pre={} post={} last={:?}",
             pre.buffer.len(), post.buffer.len(), post.buffer.last().map(fmt_order)
         );
-        rule!(
-            ctx, "C03", "insert-tradelog", sig,
-            pre.trade_log.len() == post.trade_log.len(),
-            "insert_order changed the trade log"
-        );
+        rule!(ctx, "C03", "insert-tradelog", sig, pre.trade_log.len() == post.trade_log.len(), "insert_order changed the trade log");
     }
 
     /// delete_order(id)
@@ -265,24 +265,27 @@ impl ExTracker {
         if let Some(p) = pos {
             expect.remove(p);
         }
-        let ok = expect.len() == post.book.len()
-            && expect.iter().zip(post.book.iter()).all(|(a, b)| order_eq_fields(a, b));
+        let ok = expect.len() == post.book.len() && expect.iter().zip(post.book.iter()).all(|(a, b)| order_eq_fields(a, b));
         rule!(
             ctx, "C03", "delete", kind, ok,
             "delete_order({id}) [{kind}]: book {:?} -> {:?}",
             pre.book.iter().map(|o| o.order_id.unwrap_or(u64::MAX)).collect::<Vec<_>>(),
             post.book.iter().map(|o| o.order_id.unwrap_or(u64::MAX)).collect::<Vec<_>>()
         );
-        let buf_ok = pre.buffer.len() == post.buffer.len()
-            && pre.buffer.iter().zip(post.buffer.iter()).all(|(a, b)| order_eq_fields(a, b));
+        let buf_ok = pre.buffer.len() == post.buffer.len() && pre.buffer.iter().zip(post.buffer.iter()).all(|(a, b)| order_eq_fields(a, b));
         rule!(
             ctx, "C03", "delete-buffer", kind,
             buf_ok && pre.trade_log.len() == post.trade_log.len() && pre.next_id == post.next_id,
             "delete_order({id}) touched the pending buffer, the trade log or the id counter"
         );
-        if pos.is_some() {
-            if let Some(i) = self.by_id.get(&id) {
-                self.recs[*i].status = St::Cancelled;
+        // follow what the exchange did
+        for o in &pre.book {
+            if let Some(oid) = o.order_id {
+                if !post.book.iter().any(|p| p.order_id == Some(oid)) {
+                    if let Some(i) = self.by_id.get(&oid) {
+                        self.recs[*i].status = St::Cancelled;
+                    }
+                }
             }
         }
     }
@@ -304,21 +307,22 @@ impl ExTracker {
         self.ticks += 1;
 
         // ---- buffer seen by the tick is what was inserted (C03) --------------------------------
-        {
-            let mut a: Vec<u64> = pre.buffer.iter().map(|o| o.shares.floor() as u64).collect();
-            let mut b: Vec<u64> = self.buffered.iter().map(|i| self.recs[*i].tag).collect();
-            a.sort_unstable();
-            b.sort_unstable();
+        if ctx.wants("C03") {
+            let mut a: Vec<OrderKey> = pre.buffer.iter().map(order_key).collect();
+            let mut b: Vec<OrderKey> = self.buffered.iter().map(|i| order_key(&self.recs[*i].spec.to_sut())).collect();
+            a.sort();
+            b.sort();
+            let ok = if self.json { a.len() == b.len() } else { a == b };
             rule!(
-                ctx, "C03", "buffer-content", "tick", a == b,
-                "pending buffer before tick holds tags {:?}, inserted since last tick {:?}", a, b
+                ctx, "C03", "buffer-content", "tick", ok,
+                "pending buffer before tick holds {} orders, {} were inserted since the last tick (or they differ)", a.len(), b.len()
             );
         }
 
-        // ---- expected fills by the property's table over the SUT's own pre-tick book ------------
+        // ==== A. expected fills by the property's table over the SUT's own pre-tick book ==========
         let mut expected: Vec<(Option<u64>, Trade)> = Vec::new();
         for o in &pre.book {
-            let rec_idx = self.by_tag.get(&(o.shares.floor() as u64)).copied();
+            let rec_idx = o.order_id.and_then(|id| self.by_id.get(&id).copied());
             if let Some(q) = quotes.get(&o.symbol) {
                 let fill = should_fill(o, q.bid, q.ask);
                 if let Some(i) = rec_idx {
@@ -337,6 +341,10 @@ impl ExTracker {
                             if edge {
                                 ctx.bump("probe_price_exactly_at_limit");
                             }
+                            let inside = q.bid < p && p < q.ask;
+                            if inside {
+                                ctx.bump("probe_price_strictly_inside_spread");
+                            }
                         }
                         if r.seen_false && r.seen_true {
                             ctx.nontrivial |= ctx.focus == "C02";
@@ -348,13 +356,7 @@ impl ExTracker {
                     let px = if is_buy { q.ask } else { q.bid };
                     expected.push((
                         o.order_id,
-                        Trade {
-                            symbol: o.symbol.clone(),
-                            value: px * o.shares,
-                            quantity: o.shares,
-                            date: q.date,
-                            typ: if is_buy { TradeType::Buy } else { TradeType::Sell },
-                        },
+                        Trade { symbol: o.symbol.clone(), value: px * o.shares, quantity: o.shares, date: q.date, typ: if is_buy { TradeType::Buy } else { TradeType::Sell } },
                     ));
                     ctx.bump(if o.price.is_some() { "probe_cond_true" } else { "probe_market_fill" });
                 } else {
@@ -371,6 +373,17 @@ impl ExTracker {
             }
         }
 
+        // ==== B. what the exchange did, structurally ================================================
+        let n_adm = admitted.len();
+        let tail_start = post.book.len().saturating_sub(n_adm);
+        let pre_ids: Vec<Option<u64>> = pre.book.iter().map(|o| o.order_id).collect();
+        let tail_ok = post.book.len() >= n_adm
+            && post.book[tail_start..].iter().zip(admitted.iter()).all(|(b, a)| order_eq_fields(b, a))
+            && post.book[tail_start..].iter().all(|b| !pre_ids.contains(&b.order_id));
+        let survivors: &[Order] = if tail_ok { &post.book[..tail_start] } else { &post.book[..] };
+        let gone: Vec<&Order> = pre.book.iter().filter(|o| !survivors.iter().any(|s| s.order_id == o.order_id)).collect();
+        let gone_ids: Vec<u64> = gone.iter().filter_map(|o| o.order_id).collect();
+
         // ---- C02: the fills are exactly the expected ones (as a multiset) ------------------------
         let mut got_keys: Vec<TradeKey> = trades.iter().map(trade_key).collect();
         let mut exp_keys: Vec<TradeKey> = expected.iter().map(|(_, t)| trade_key(t)).collect();
@@ -379,24 +392,22 @@ impl ExTracker {
         exp_keys.sort();
         let same_set = if self.json {
             got_keys.len() == exp_keys.len() && {
-                // compare with tolerance, pairing by tag
+                let key = |t: &Trade| (t.symbol.clone(), typ_num(&t.typ), t.date);
                 let mut g: Vec<&Trade> = trades.iter().collect();
                 let mut e: Vec<&Trade> = expected.iter().map(|(_, t)| t).collect();
-                g.sort_by(|a, b| a.quantity.partial_cmp(&b.quantity).unwrap());
-                e.sort_by(|a, b| a.quantity.partial_cmp(&b.quantity).unwrap());
-                g.iter().zip(e.iter()).all(|(a, b)| {
-                    a.symbol == b.symbol
-                        && a.date == b.date
-                        && a.typ == b.typ
-                        && self.feq(a.quantity, b.quantity)
-                        && self.feq(a.value, b.value)
-                })
+                g.sort_by(|a, b| key(a).cmp(&key(b)).then(a.quantity.partial_cmp(&b.quantity).unwrap_or(std::cmp::Ordering::Equal)));
+                e.sort_by(|a, b| key(a).cmp(&key(b)).then(a.quantity.partial_cmp(&b.quantity).unwrap_or(std::cmp::Ordering::Equal)));
+                g.iter().zip(e.iter()).all(|(a, b)| a.symbol == b.symbol && a.date == b.date && a.typ == b.typ && self.feq(a.quantity, b.quantity) && self.feq(a.value, b.value))
             }
         } else {
             got_keys == exp_keys
         };
+        let quotes_txt = || {
+            let mut q: Vec<_> = quotes.values().map(|q| (q.symbol.clone(), q.bid, q.ask, q.date)).collect();
+            q.sort_by(|a, b| a.0.cmp(&b.0));
+            format!("{:?}", q)
+        };
         if ctx.wants("C02") && !same_set {
-            // describe the first difference, naming the order type involved
             let mut sig = "fills";
             for (id, t) in &expected {
                 if !trades.iter().any(|g| trade_key(g) == trade_key(t)) {
@@ -409,8 +420,8 @@ impl ExTracker {
             if sig == "fills" {
                 for g in trades {
                     if !expected.iter().any(|(_, t)| trade_key(g) == trade_key(t)) {
-                        if let Some(i) = self.by_tag.get(&(g.quantity.floor() as u64)) {
-                            sig = self.recs[*i].spec.typ.name();
+                        if let Some(o) = pre.book.iter().find(|o| body_key_order(o) == self.body_key_trade(g)) {
+                            sig = Typ::from_sut(o.order_type).name();
                         }
                         break;
                     }
@@ -419,16 +430,32 @@ impl ExTracker {
             ctx.fail(
                 "C02", "fill-set", sig,
                 format!(
-                    "tick fills differ from the fill table: got [{}] expected [{}] quotes {:?}",
+                    "tick fills differ from the fill table: got [{}] expected [{}] book [{}] quotes {}",
                     trades.iter().map(fmt_trade).collect::<Vec<_>>().join(", "),
                     expected.iter().map(|(_, t)| fmt_trade(t)).collect::<Vec<_>>().join(", "),
-                    {
-                        let mut q: Vec<_> = quotes.values().map(|q| (q.symbol.clone(), q.bid, q.ask, q.date)).collect();
-                        q.sort_by(|a, b| a.0.cmp(&b.0));
-                        q
-                    }
+                    pre.book.iter().map(fmt_order).collect::<Vec<_>>().join(", "),
+                    quotes_txt()
                 ),
             );
+        }
+        // which orders left the book must be the ones the table fills: an order whose condition is
+        // not met (or that has no quote) keeps resting
+        if ctx.wants("C02") && same_set {
+            let mut a = gone_ids.clone();
+            let mut b: Vec<u64> = expected.iter().filter_map(|(id, _)| *id).collect();
+            a.sort_unstable();
+            b.sort_unstable();
+            if a != b {
+                let odd = a.iter().find(|x| !b.contains(x)).or_else(|| b.iter().find(|x| !a.contains(x))).copied();
+                let sig = odd.and_then(|id| pre.book.iter().find(|o| o.order_id == Some(id))).map_or("book", |o| Typ::from_sut(o.order_type).name());
+                ctx.fail(
+                    "C02", "resting-vanished-or-filled-stays", sig,
+                    format!(
+                        "orders that left the book on this tick {:?}, orders whose fill condition is met {:?}; book [{}] quotes {}",
+                        a, b, pre.book.iter().map(fmt_order).collect::<Vec<_>>().join(", "), quotes_txt()
+                    ),
+                );
+            }
         }
         // ---- C17: fills are reported in book order ---------------------------------------------
         if same_set && !self.json {
@@ -440,46 +467,76 @@ impl ExTracker {
             );
         }
 
-        // ---- per fill: C01 (no look-ahead), C03 (at most once, full quantity) --------------------
-        let mut filled_ids: Vec<u64> = Vec::new();
-        for t in trades {
-            let tag = t.quantity.floor() as u64;
-            let Some(&i) = self.by_tag.get(&tag) else {
-                ctx.fail("C03", "phantom-fill", "tick", format!("fill {} matches no submitted order", fmt_trade(t)));
-                continue;
-            };
-            let (status, typ, shares, submit_clock, id) = {
-                let r = &self.recs[i];
-                (r.status, r.spec.typ, r.spec.shares.0, r.submit_clock, r.id)
-            };
-            let sig = typ.name();
-            match status {
-                St::Buffered => {
-                    ctx.fail(
-                        "C01", "same-tick-fill", sig,
-                        format!("order tag {tag} filled by the tick that admits it: {}", fmt_trade(t)),
-                    );
-                    ctx.fail("C03", "fill-unadmitted", sig, format!("order tag {tag} filled before being reported admitted"));
+        // ---- C03 (structure): every fill has exactly one departing order and vice versa -----------
+        let mut dep: Vec<BodyKey> = gone.iter().map(|o| body_key_order(o)).collect();
+        let mut fil: Vec<BodyKey> = trades.iter().map(|t| self.body_key_trade(t)).collect();
+        dep.sort();
+        fil.sort();
+        let structural_ok = if self.json { dep.len() == fil.len() } else { dep == fil };
+        if !structural_ok {
+            // classify: a fill with no departing order, or a departure without a fill
+            let mut unmatched_fills: Vec<&Trade> = Vec::new();
+            let mut pool = dep.clone();
+            for t in trades {
+                let k = self.body_key_trade(t);
+                if let Some(p) = pool.iter().position(|x| *x == k) {
+                    pool.remove(p);
+                } else {
+                    unmatched_fills.push(t);
                 }
-                St::Filled => ctx.fail("C03", "double-fill", sig, format!("order tag {tag} (id {id:?}) filled twice: {}", fmt_trade(t))),
-                St::Cancelled => ctx.fail("C03", "fill-after-cancel", sig, format!("cancelled order tag {tag} (id {id:?}) filled: {}", fmt_trade(t))),
-                St::Resting => {}
+            }
+            for t in &unmatched_fills {
+                let k = self.body_key_trade(t);
+                // an order of this very batch?
+                let in_batch = self.buffered.iter().any(|i| body_key_order(&self.recs[*i].spec.to_sut()) == k) || admitted.iter().any(|o| body_key_order(o) == k && !pre_ids.contains(&o.order_id));
+                let still_resting = survivors.iter().any(|o| body_key_order(o) == k);
+                if in_batch && !pre.book.iter().any(|o| body_key_order(o) == k) {
+                    ctx.fail("C01", "same-tick-fill", "tick", format!("an order submitted since the last tick was filled by the tick that admits it: {}", fmt_trade(t)));
+                    ctx.fail("C03", "fill-unadmitted", "tick", format!("fill {} belongs to an order that was not yet admitted", fmt_trade(t)));
+                } else if still_resting {
+                    ctx.fail("C03", "filled-stays", "tick", format!("fill {} but the order it belongs to is still resting: it can fill again", fmt_trade(t)));
+                } else {
+                    ctx.fail("C03", "phantom-fill", "tick", format!("fill {} matches no order that left the book (double fill or fill of a dead order)", fmt_trade(t)));
+                }
+            }
+            if !pool.is_empty() {
+                ctx.fail(
+                    "C03", "lost-order", "tick",
+                    format!("{} order(s) left the book without a fill or a cancel: {:?}; fills [{}]", pool.len(), pool, trades.iter().map(fmt_trade).collect::<Vec<_>>().join(", ")),
+                );
+            }
+        }
+        // survivors keep their place and their fields
+        {
+            let mut it = pre.book.iter();
+            let mut ok = true;
+            for s in survivors {
+                match it.by_ref().find(|o| o.order_id == s.order_id) {
+                    Some(o) => {
+                        if !order_eq_body(o, s) {
+                            ctx.fail("C02", "resting-changed", Typ::from_sut(o.order_type).name(), format!("resting order changed across a tick: {} -> {}", fmt_order(o), fmt_order(s)));
+                        }
+                    }
+                    None => {
+                        ok = false;
+                        break;
+                    }
+                }
             }
             rule!(
-                ctx, "C03", "fill-quantity", sig, self.feq(t.quantity, shares),
-                "order tag {tag} ordered {shares:?} filled {:?}", t.quantity
+                ctx, "C03", "book-conservation", "tick", ok && tail_ok,
+                "book after tick {:?} is not (a subsequence of the book before {:?}) followed by the admitted batch {:?}",
+                post.book.iter().map(|o| o.order_id).collect::<Vec<_>>(), pre_ids, admitted.iter().map(|o| o.order_id).collect::<Vec<_>>()
             );
-            // C01 (b): dated with and priced from this tick's quotes only
+        }
+
+        // ---- per fill: C01 (dated with and priced from this tick's quotes), C07 ---------------------
+        for t in trades {
+            let sig = pre.book.iter().find(|o| body_key_order(o) == self.body_key_trade(t)).map_or("tick", |o| Typ::from_sut(o.order_type).name());
             match quotes.get(&t.symbol) {
-                None => ctx.fail(
-                    "C01", "fill-without-quote", sig,
-                    format!("fill {} but the tick carried no quote for {}", fmt_trade(t), t.symbol),
-                ),
+                None => ctx.fail("C01", "fill-without-quote", sig, format!("fill {} but the tick carried no quote for {}", fmt_trade(t), t.symbol)),
                 Some(q) => {
-                    rule!(
-                        ctx, "C01", "fill-date", sig, t.date == q.date,
-                        "fill {} dated {} but this tick's quote is dated {}", fmt_trade(t), t.date, q.date
-                    );
+                    rule!(ctx, "C01", "fill-date", sig, t.date == q.date, "fill {} dated {} but this tick's quote is dated {}", fmt_trade(t), t.date, q.date);
                     rule!(
                         ctx, "C01", "fill-price", sig,
                         self.feq(t.value, q.ask * t.quantity) || self.feq(t.value, q.bid * t.quantity),
@@ -488,43 +545,42 @@ impl ExTracker {
                 }
             }
             if let Some(d) = expect_date {
-                rule!(
-                    ctx, "C07", "fill-date", "tick", t.date == d,
-                    "tick matched against date {} produced a fill dated {}", d, t.date
-                );
+                rule!(ctx, "C07", "fill-date", "tick", t.date == d, "tick matched against date {} produced a fill dated {}", d, t.date);
+            }
+            ctx.bump("fills");
+        }
+        // ---- departing orders: status, C03 at most once, C01 submission clock ----------------------
+        for o in &gone {
+            let Some(id) = o.order_id else { continue };
+            let Some(&i) = self.by_id.get(&id) else { continue };
+            let sig = self.recs[i].spec.typ.name();
+            match self.recs[i].status {
+                St::Resting => {}
+                St::Filled => ctx.fail("C03", "double-fill", sig, format!("order id {id} left the book twice")),
+                St::Cancelled => ctx.fail("C03", "fill-after-cancel", sig, format!("cancelled order id {id} was still in the book")),
+                St::Buffered => {}
             }
             if judge_clock {
-                if let Some(c) = submit_clock {
-                    rule!(
-                        ctx, "C01", "fill-not-after-submission", sig, t.date > c,
-                        "order tag {tag} submitted at clock {c} filled with date {}", t.date
-                    );
+                if let (Some(c), Some(q)) = (self.recs[i].submit_clock, quotes.get(&o.symbol)) {
+                    rule!(ctx, "C01", "fill-not-after-submission", sig, q.date > c, "order id {id} submitted at clock {c} filled with date {}", q.date);
                 }
             }
-            if status == St::Resting {
-                if let Some(id) = id {
-                    filled_ids.push(id);
-                }
-                if self.recs[i].waited_gap_ticks > 0 {
-                    ctx.bump("probe_fill_after_gap");
-                }
+            if self.recs[i].waited_gap_ticks > 0 {
+                ctx.bump("probe_fill_after_gap");
             }
             self.recs[i].status = St::Filled;
-            ctx.bump("fills");
         }
 
         // ---- admission: C03 (exactly once, unique ids), C17 (sells first, ids follow order) -------
         {
-            let mut a: Vec<u64> = admitted.iter().map(|o| o.shares.floor() as u64).collect();
-            let mut b: Vec<u64> = self.buffered.iter().map(|i| self.recs[*i].tag).collect();
-            a.sort_unstable();
-            b.sort_unstable();
-            let ok = a == b;
-            rule!(ctx, "C03", "admitted-set", "tick", ok, "admitted tags {:?} but submitted since last tick {:?}", a, b);
-            rule!(ctx, "C17", "admitted-set", "tick", ok, "admitted tags {:?} but submitted since last tick {:?}", a, b);
+            let mut a: Vec<OrderKey> = admitted.iter().map(order_key).collect();
+            let mut b: Vec<OrderKey> = self.buffered.iter().map(|i| order_key(&self.recs[*i].spec.to_sut())).collect();
+            a.sort();
+            b.sort();
+            let ok = if self.json { a.len() == b.len() } else { a == b };
+            rule!(ctx, "C03", "admitted-set", "tick", ok, "the tick reported {} admitted orders, {} were submitted since the last tick (or they differ): admitted [{}]", a.len(), b.len(), admitted.iter().map(fmt_order).collect::<Vec<_>>().join(", "));
+            rule!(ctx, "C17", "admitted-set", "tick", ok, "the tick reported {} admitted orders, {} were submitted since the last tick (or they differ)", a.len(), b.len());
         }
-        let mut seen_buy = false;
-        let mut prev_id: Option<u64> = None;
         let n_sell = admitted.iter().filter(|o| !Typ::from_sut(o.order_type).is_buy()).count();
         if n_sell > 0 && n_sell < admitted.len() {
             ctx.bump("probe_mixed_batch");
@@ -533,6 +589,9 @@ impl ExTracker {
             }
             ctx.nontrivial |= ctx.focus == "C17";
         }
+        let mut seen_buy = false;
+        let mut prev_id: Option<u64> = None;
+        let mut unmatched: Vec<usize> = std::mem::take(&mut self.buffered);
         for o in admitted {
             let is_buy = Typ::from_sut(o.order_type).is_buy();
             if is_buy {
@@ -540,22 +599,14 @@ impl ExTracker {
             } else if seen_buy {
                 ctx.fail(
                     "C17", "sells-first", Typ::from_sut(o.order_type).name(),
-                    format!(
-                        "batch of {} admitted with a sell after a buy: [{}]",
-                        admitted.len(),
-                        admitted.iter().map(|o| if Typ::from_sut(o.order_type).is_buy() { 'B' } else { 'S' }).collect::<String>()
-                    ),
+                    format!("batch of {} admitted with a sell after a buy: [{}]", admitted.len(), admitted.iter().map(|o| if Typ::from_sut(o.order_type).is_buy() { 'B' } else { 'S' }).collect::<String>()),
                 );
             }
-            let tag = o.shares.floor() as u64;
             match o.order_id {
                 None => ctx.fail("C03", "admitted-without-id", "tick", format!("admitted order {} has no id", fmt_order(o))),
                 Some(id) => {
-                    if let Some(j) = self.by_id.get(&id) {
-                        ctx.fail(
-                            "C03", "id-reuse", "tick",
-                            format!("id {id} given to tag {tag} was already given to tag {}", self.recs[*j].tag),
-                        );
+                    if self.by_id.contains_key(&id) {
+                        ctx.fail("C03", "id-reuse", "tick", format!("id {id} given to {} was already given to another order of this exchange", fmt_order(o)));
                     }
                     if let Some(p) = prev_id {
                         rule!(ctx, "C17", "id-order", "tick", id > p, "ids do not grow along the admitted list: {p} then {id}");
@@ -563,54 +614,24 @@ impl ExTracker {
                         rule!(ctx, "C17", "id-order", "tick", id > m, "admitted id {id} does not exceed earlier id {m}");
                     }
                     prev_id = Some(id);
-                    if let Some(&i) = self.by_tag.get(&tag) {
-                        if self.recs[i].status == St::Buffered {
-                            let ok = self.spec_matches(&self.recs[i].spec, o);
-                            rule!(
-                                ctx, "C03", "admitted-altered", self.recs[i].spec.typ.name(), ok,
-                                "admitted {} differs from submitted {:?}", fmt_order(o), self.recs[i].spec
-                            );
-                            self.recs[i].status = St::Resting;
-                            self.recs[i].id = Some(id);
-                            self.by_id.insert(id, i);
-                        } else if self.recs[i].status != St::Buffered {
-                            ctx.fail("C03", "admitted-twice", "tick", format!("tag {tag} reported admitted again"));
-                        }
+                    // match with one submitted order of this batch, field by field
+                    if let Some(p) = unmatched.iter().position(|i| self.spec_matches(&self.recs[*i].spec, o)) {
+                        let i = unmatched.remove(p);
+                        self.recs[i].status = St::Resting;
+                        self.recs[i].id = Some(id);
+                        self.by_id.entry(id).or_insert(i);
+                    } else {
+                        ctx.fail("C03", "admitted-altered", Typ::from_sut(o.order_type).name(), format!("admitted {} equals no order submitted since the last tick", fmt_order(o)));
                     }
                     self.max_id = Some(self.max_id.map_or(id, |m| m.max(id)));
                 }
             }
         }
-        for i in std::mem::take(&mut self.buffered) {
-            if self.recs[i].status == St::Buffered {
-                // lost: never reported admitted; keep it out of later bookkeeping
-                self.recs[i].status = St::Cancelled;
-            }
+        for i in unmatched {
+            // never reported admitted: lost (already flagged by admitted-set)
+            self.recs[i].status = St::Cancelled;
         }
 
-        // ---- post-tick book: C03 conservation, C02 unchanged resting orders ------------------------
-        let mut exp_book: Vec<&Order> = pre.book.iter().filter(|o| !o.order_id.map(|id| filled_ids.contains(&id)).unwrap_or(false)).collect();
-        for o in admitted {
-            exp_book.push(o);
-        }
-        let ids_exp: Vec<Option<u64>> = exp_book.iter().map(|o| o.order_id).collect();
-        let ids_got: Vec<Option<u64>> = post.book.iter().map(|o| o.order_id).collect();
-        if ids_exp != ids_got {
-            ctx.fail(
-                "C03", "book-conservation", "tick",
-                format!("book after tick has ids {:?}, expected resting-unfilled + admitted = {:?} (filled {:?})", ids_got, ids_exp, filled_ids),
-            );
-        } else {
-            for (e, g) in exp_book.iter().zip(post.book.iter()) {
-                if !order_eq_body(e, g) {
-                    ctx.fail(
-                        "C02", "resting-changed", Typ::from_sut(e.order_type).name(),
-                        format!("resting order changed across a tick: {} -> {}", fmt_order(e), fmt_order(g)),
-                    );
-                    break;
-                }
-            }
-        }
         rule!(ctx, "C03", "buffer-cleared", "tick", post.buffer.is_empty(), "pending buffer not empty after tick: {} orders", post.buffer.len());
         {
             let ok = post.trade_log.len() == pre.trade_log.len() + trades.len()
@@ -618,21 +639,15 @@ impl ExTracker {
                     .iter()
                     .zip(trades.iter())
                     .all(|(a, b)| a.symbol == b.symbol && a.date == b.date && self.feq(a.value, b.value) && self.feq(a.quantity, b.quantity));
-            rule!(
-                ctx, "C03", "trade-log", "tick", ok,
-                "trade log grew from {} to {} but the tick reported {} fills", pre.trade_log.len(), post.trade_log.len(), trades.len()
-            );
+            rule!(ctx, "C03", "trade-log", "tick", ok, "trade log grew from {} to {} but the tick reported {} fills", pre.trade_log.len(), post.trade_log.len(), trades.len());
         }
-        // every resting order of the model is in the book and vice versa (set level)
+        // admitted = filled + cancelled + resting, as sets of ids
         if ctx.wants("C03") {
             let mut model: Vec<u64> = self.recs.iter().filter(|r| r.status == St::Resting).filter_map(|r| r.id).collect();
             let mut sut: Vec<u64> = post.book.iter().filter_map(|o| o.order_id).collect();
             model.sort_unstable();
             sut.sort_unstable();
-            rule!(
-                ctx, "C03", "admitted-equals-filled-cancelled-resting", "tick", model == sut,
-                "resting ids by history {:?} but book holds {:?}", model, sut
-            );
+            rule!(ctx, "C03", "admitted-equals-filled-cancelled-resting", "tick", model == sut, "resting ids by history {:?} but book holds {:?}", model, sut);
         }
     }
 
